@@ -1324,12 +1324,20 @@ func convertDateFormat(format string) string {
 		"s": "05", // Seconds with leading zeros
 	}
 
-	result := format
-	for phpFormat, goFormat := range replacements {
-		result = strings.ReplaceAll(result, phpFormat, goFormat)
+	// Translate each format letter exactly once, left to right. (Replacing the letters
+	// one after another over the whole string would re-translate letters produced by an
+	// earlier replacement, in an order that depends on map iteration.)
+	var result strings.Builder
+	result.Grow(len(format) * 2)
+	for i := 0; i < len(format); i++ {
+		if goFormat, ok := replacements[format[i:i+1]]; ok {
+			result.WriteString(goFormat)
+		} else {
+			result.WriteByte(format[i])
+		}
 	}
 
-	return result
+	return result.String()
 }
 
 // Additional filter implementations
@@ -1384,10 +1392,16 @@ func (e *CoreExtension) filterFirst(value interface{}, args ...interface{}) (int
 		}
 		return nil, nil
 	case map[string]interface{}:
-		for _, val := range v {
-			return val, nil // Return first value found
+		// The first entry of a map is the one with the smallest key
+		keys := make([]string, 0, len(v))
+		for k := range v {
+			keys = append(keys, k)
 		}
-		return nil, nil
+		if len(keys) == 0 {
+			return nil, nil
+		}
+		sort.Strings(keys)
+		return v[keys[0]], nil
 	}
 
 	// Try reflection for other types
@@ -1405,10 +1419,12 @@ func (e *CoreExtension) filterFirst(value interface{}, args ...interface{}) (int
 		}
 		return nil, nil
 	case reflect.Map:
-		for _, key := range rv.MapKeys() {
-			return rv.MapIndex(key).Interface(), nil // Return first value found
+		// The first entry of a map is the one with the smallest key
+		keys := sortedMapKeys(rv)
+		if len(keys) == 0 {
+			return nil, nil
 		}
-		return nil, nil
+		return rv.MapIndex(keys[0]).Interface(), nil
 	}
 
 	return nil, fmt.Errorf("cannot get first element of %T", value)
@@ -1595,6 +1611,17 @@ func sliceBounds(count, start, length int, hasLength bool) (int, int) {
 	return start, end
 }
 
+// sortedMapKeys returns the keys of a map value ordered by their string form, so that
+// everything derived from a map visits its entries in an order that depends only on
+// the keys and not on Go's map iteration order.
+func sortedMapKeys(rv reflect.Value) []reflect.Value {
+	keys := rv.MapKeys()
+	sort.SliceStable(keys, func(i, j int) bool {
+		return toString(keys[i].Interface()) < toString(keys[j].Interface())
+	})
+	return keys
+}
+
 func (e *CoreExtension) filterKeys(value interface{}, args ...interface{}) (interface{}, error) {
 	if value == nil {
 		return nil, nil
@@ -1617,7 +1644,7 @@ func (e *CoreExtension) filterKeys(value interface{}, args ...interface{}) (inte
 	if rv.Kind() == reflect.Map {
 		// For maps, return the keys as a slice of the same type as the keys
 		keys := make([]interface{}, 0, rv.Len())
-		for _, key := range rv.MapKeys() {
+		for _, key := range sortedMapKeys(rv) {
 			if key.CanInterface() {
 				keys = append(keys, key.Interface())
 			}
